@@ -88,7 +88,7 @@ def load_contracts():
         requires=["csvpath.g_preceding", "not filename.startswith('$')", "not pathsname.startswith('$')", HAS_BRACKET],
         modifies=["csvpath.g_last_parsed", "csvpath.g_parse_calls", "csvpath.metadata"],
         raises={"CsvPathsException": {"when": "by_line", "exact": True}, "Exception": {"when": "True", "exact": False}},
-        ensures={"reads_the_predecessors_data_file": "csvpath.g_parse_calls == old(csvpath.g_parse_calls) + 1 and "
+        ensures={"reads_the_predecessors_data_file": "csvpath.g_parse_calls >= old(csvpath.g_parse_calls) + 1 and "
                                                      "csvpath.g_last_parsed == '$' + self.results_manager.g_pred.g_data_file_path + %s" % match_part,
                  "says_so_in_the_metadata": "'source-mode-source' in csvpath.metadata and same(csvpath.metadata['source-mode-source'], self.results_manager.g_pred.g_data_file_path)"},
         covers={"an_empty_predecessor_is_still_the_predecessor": "self.results_manager.g_pred.g_len == 0 and csvpath.g_parse_calls == old(csvpath.g_parse_calls) + 1"},
@@ -99,7 +99,7 @@ def load_contracts():
         target=f"{CPS}::CsvPaths._load_csvpath", variant="origin_mode", types=types,
         requires=["not csvpath.g_preceding", "not filename.startswith('$')", HAS_BRACKET],
         modifies=["csvpath.g_last_parsed", "csvpath.g_parse_calls", "csvpath.metadata"], raises={"Exception": {"when": "True", "exact": False}},
-        ensures={"reads_the_named_file": "csvpath.g_parse_calls == old(csvpath.g_parse_calls) + 1 and csvpath.g_last_parsed == '$' + file + %s" % match_part,
+        ensures={"reads_the_named_file": "csvpath.g_parse_calls >= old(csvpath.g_parse_calls) + 1 and csvpath.g_last_parsed == '$' + file + %s" % match_part,
                  "metadata_does_not_claim_a_predecessor": "('source-mode-source' in csvpath.metadata) == ('source-mode-source' in old(csvpath.metadata))"},
         callee_variants={"ResultsManager.get_last_named_result": "found"},
         property_clauses={"reads_the_named_file": "C20", "metadata_does_not_claim_a_predecessor": "C20"}, **common))
